@@ -497,7 +497,8 @@ class ChoiceRecorder:
 
         def rec(*a, **k):
             r = self._orig(*a, **k)
-            self.draws.append([float(x) for x in np.atleast_1d(r)])
+            # integers stay integers (values beyond 2^53 are distinct as integers only)
+            self.draws.append([(int(x) if isinstance(x, (int, np.integer)) and not isinstance(x, (bool, np.bool_)) else float(x)) for x in np.atleast_1d(r)])
             return r
 
         np.random.choice = rec
